@@ -26,7 +26,7 @@ CONFIGS = [
     ("--solver", "z3", "--storage-layout", "generic"),
 ]
 
-BUDGET = {"quick": 8, "thorough": 120}
+BUDGET = {"quick": 6, "thorough": 120}
 
 
 def codes_of(cli: tuple) -> set[int] | None:
@@ -103,7 +103,7 @@ def explore(chk: Check, tier: str, want: str):
                 raise MachineryError(f"run_contract raised {out.exception}")
             runs.append((contract, metas, cli, out))
         # division / remainder with a symbolic divisor around the zero divisor (refinement of the abstractions)
-        for cli in ((), ("--solver", "z3")) if tier == "quick" else CONFIGS:
+        for cli in ((),) if tier == "quick" else CONFIGS:  # (z3 needs minutes for the 256-bit division queries: thorough tier only)
             contract, metas = testgen.gen_divzero_contract(rnd)
             out = run_contract(contract, cli=cli)
             if out.exception:
